@@ -1036,7 +1036,7 @@ def post_grad_dims(cases, rust, model):
     fails = []
     n = 0
     for i, (c, r) in enumerate(zip(cases, rust)):
-        if "grads" not in c or any(o in ("panic", "timeout") for o in r):
+        if "grads" not in c or any(o in ("panic", "timeout", "crash") for o in r):
             continue
         for key in ("grads", "grads2"):
             for leaf, gi in c.get(key, {}).items():
@@ -1270,7 +1270,7 @@ def post_log_once(cases, rust, model):
     fails = []
     n = 0
     for i, (c, r) in enumerate(zip(cases, rust)):
-        if "log_at" not in c or any(o in ("panic", "timeout") for o in r):
+        if "log_at" not in c or any(o in ("panic", "timeout", "crash") for o in r):
             continue
         log = [it for it in r[c["log_at"]] if it[0] == 6]
         tags = [it[1][0] for it in log]
@@ -1367,7 +1367,7 @@ def post_linearity(cases, rust, model):
     for g, roles in groups.items():
         if not all(k in roles for k in ("s1", "s2", "comb", "none", "ones")):
             continue
-        if any(any(o in ("panic", "timeout") for o in rust[i]) for i in roles.values()):
+        if any(any(o in ("panic", "timeout", "crash") for o in rust[i]) for i in roles.values()):
             continue
         c = cases[roles["comb"]]
         alpha, beta = c["coeffs"]
@@ -1670,7 +1670,7 @@ def post_additivity(cases, rust, model):
             continue
         ia = roles["all"]
         c = cases[ia]
-        if any(any(o in ("panic", "timeout") for o in rust[i]) for i in roles.values()):
+        if any(any(o in ("panic", "timeout", "crash") for o in rust[i]) for i in roles.values()):
             continue
         n += 1
         for (gi, var) in c["final"]:
@@ -1759,7 +1759,7 @@ def post_released(cases, rust, model):
     fails = []
     n = 0
     for i, (c, r) in enumerate(zip(cases, rust)):
-        if "takes" not in c or r == ["timeout"]:
+        if "takes" not in c or r in (["timeout"], ["crash"]):
             continue
         n += 1
         for t in c["takes"]:
@@ -1880,10 +1880,10 @@ def post_variants_equal(cases, rust, model):
         if not str(c.get("role", "")).startswith("variant") or c.get("group") not in base:
             continue
         ib = base[c["group"]]
-        if any(o in ("panic", "timeout") for o in rust[ib]):
+        if any(o in ("panic", "timeout", "crash") for o in rust[ib]):
             continue
         n += 1
-        if any(o in ("panic", "timeout") for o in rust[i]):
+        if any(o in ("panic", "timeout", "crash") for o in rust[i]):
             fails.append({"case": i, "confirmed": True,
                           "reason": "the variant with clones/drops panicked while the original program did not"})
             continue
@@ -2113,7 +2113,7 @@ def post_formulas(cases, rust, model):
     n = 0
     for i, (c, r) in enumerate(zip(cases, rust)):
         meta = c.get("model_meta")
-        if not meta or any(o in ("panic", "timeout", "nohook") for o in r):
+        if not meta or any(o in ("panic", "timeout", "crash", "nohook") for o in r):
             continue
         layers = [tuple(l) for l in meta["layers"]]
         pidx = 1
@@ -2145,7 +2145,7 @@ def post_train_step(cases, rust, model):
     n = 0
     for i, (c, r) in enumerate(zip(cases, rust)):
         meta = c.get("model_meta")
-        if not meta or any(o in ("panic", "timeout", "nohook") for o in r):
+        if not meta or any(o in ("panic", "timeout", "crash", "nohook") for o in r):
             continue
         layers = [tuple(l) for l in meta["layers"]]
         pidx = 1
@@ -2306,7 +2306,7 @@ def post_immutable(cases, rust, model):
     fails = []
     n = 0
     for i, (c, r) in enumerate(zip(cases, rust)):
-        if "snaps" not in c or r == ["timeout"]:
+        if "snaps" not in c or r in (["timeout"], ["crash"]):
             continue
         first = {}
         for (at, var, ep) in c["snaps"]:
